@@ -10,6 +10,10 @@ A_NOTE = ("Trusted: std::sync::mpsc and the 30-line native transport (the simula
           "hash-iteration order pinned by the hooks; scenario templates over a stated grid.")
 
 CHECKS = {
+    "C07": dict(engine="bcverify", category="model_checking", design="6, 7/C07",
+                technique="explicit-state reachability over the abstract machine states (pc, operand height, locals count) of every emitted function, with trace conformance against the real VM",
+                text="For every function of every accepted program (std, test-suite literals, spec examples, Engine-A scenarios, tail-call probes, and all programs of the core grammar up to n nodes) in four forms (as compiled, tree-shaken, JSON round trip, merged cumulatively into a running environment): all reachable (pc, h, l) states are visited and jump ranges, operand underflow, single height per pc, exit height 1, Load/Reset within the locals defined on every path, TailCall heights, and every table index are checked. The abstraction is bound to the VM by replaying real executions with the per-instruction trace hook (a disagreement is a machinery failure).",
+                note="Transfer functions read off execute_hot/execute_cold; Select modelled by its completed effect; programs limited to the corpus and the enumerated grammar."),
     "C14": dict(engine="sim", category="model_checking", design="4, 7/C14",
                 technique="stateless model checking of the real runtime over an instrumented effect backend with scheduler-controlled completion; host-side ownership model on the consumed event stream",
                 text="Resource scenarios over the real file builtins and the real ownership logic under every schedule within the deviation bound, effects immediate or deferred: backend calls vs the calls the ownership rules allow after every environment step, runtime closes only for terminated owners and at most once, at quiescence every resource of a terminated owner is closed (one known finding: never-awaited owners).",
